@@ -20,6 +20,15 @@
 #  3. The transition relation of the code-faithful configuration (bare ids everywhere) is replayed edge by edge on
 #     real agents with a full state comparison after every step: any other behaviour of the code is a violation.
 #  4. Operation-level scenarios derived from the TLC behaviours for TCP, port forward, UDP (+ ICMP with puppets).
+#  5. Behaviour classes that do not depend on colliding ids (all with skewed allocators, so the ids of the two hops of a
+#     tunnel differ):
+#     * the transit's data handler as two steps (Split = TRUE: RelayLookup / RelaySend; DevRelayEntryRecycled) - on the
+#       real transit the frame loop is stopped at the point "agent.relay.lookup" while the tunnel is closed from the other
+#       side and a third peer opens a new tunnel (TestZZVRelayGate);
+#     * closes that originate at the exit (ExitExpire; DevCloseUpstreamWrongId): UDP idle expiry at a real exit, ICMP close
+#       from a puppet exit, two associations of one ingress alive;
+#     * back-pressure (BufCap; DevPushTimeoutDrop): a consumer that stops reading while more frames than the read buffer
+#       holds are in flight must still receive every byte.
 import vf, _relay as R
 
 
@@ -47,6 +56,27 @@ def run(ctx):
                                                          maxf=c["maxf"], maxr=c["maxr"], invs=c["invs"]))
     thunks.append(lambda: R.deviation(ctx, "nopeercheck", "chain", dev=["DevDataNoPeerCheck"], ntun=1, ops=("rev",), maxf=1, maxr=1,
                                       invs=inv16))
+    # classes without colliding ids: two-step relay handler, exit-originated close, back-pressure
+    U3 = ("udp", "icmp", "udp")
+    ext_ideal = {"split": dict(topo="fork", ops=("tclose",), maxf=1, maxr=0, split=True),
+                 "exitclose": dict(topo="chain", kinds=U3, ops=("xexpire",), maxf=0, maxr=0, burn=["T>X"]),
+                 "backpressure": dict(topo="chain", ntun=1, ops=("rev", "tclose"), maxf=0, maxr=3, bufcap=1)}
+    ext_dev = {"DevRelayEntryRecycled": dict(ext_ideal["split"], dev=["DevRelayEntryRecycled"]),
+               "DevCloseUpstreamWrongId": dict(ext_ideal["exitclose"], dev=["DevCloseUpstreamWrongId"]),
+               "DevPushTimeoutDrop": dict(ext_ideal["backpressure"], dev=["DevPushTimeoutDrop"])}
+    if not q:
+        ext_ideal["split"] = dict(topo="fork", ops=("tclose", "rev"), maxf=1, maxr=1, split=True)
+        ext_ideal["exitclose"] = dict(topo="chain", ntun=3, kinds=U3, ops=("xexpire", "disc"), maxf=1, maxr=0, burn=["T>X"])
+        ext_ideal["backpressure"] = dict(topo="chain", ntun=2, ops=("rev", "tclose"), maxf=0, maxr=3, bufcap=2)
+
+    def ext_cfg(c, invs):
+        c = dict(c)
+        return R.cfg(c.pop("topo"), c.pop("ntun", 2), c.pop("kinds", ("tcp",) * 3), invs=invs, **c)
+    for name, c in ext_ideal.items():
+        thunks.append(lambda name=name, c=c: R.tlc(ctx, "ideal_" + name, ext_cfg(c, inv16 + " IndexConsistent"), workers=2 if q else 4,
+                                                   timeout=1500))
+    for name, c in ext_dev.items():
+        thunks.append(lambda name=name, c=c: R.tlc(ctx, name, ext_cfg(c, inv16), expect_violation=True))
     rel_specs = [("star", "tcp", dict(ops=(), maxf=1, maxr=0)), ("fanin", "tcp", dict(ops=(), maxf=1, maxr=0))]
     if not q:
         rel_specs = [("star", "tcp", dict(ops=("tclose",), maxf=1, maxr=0)), ("fanin", "tcp", dict(ops=(), maxf=1, maxr=0)),
@@ -54,13 +84,24 @@ def run(ctx):
     for topo, variant, c in rel_specs:
         thunks.append(lambda topo=topo, c=c: R.relation(ctx, "rel_" + topo, topo, **c))
     res = R.parallel(thunks)
-    n_i, n_s = len(ideal_insts), len(site_cfg)
-    ideals, sids, nopeer, rels = res[:n_i], dict(zip(site_cfg, res[n_i:n_i + n_s])), res[n_i + n_s], res[n_i + n_s + 1:]
+    n_i, n_s, n_e = len(ideal_insts), len(site_cfg), len(ext_ideal)
+    ideals, sids, nopeer = res[:n_i], dict(zip(site_cfg, res[n_i:n_i + n_s])), res[n_i + n_s]
+    k = n_i + n_s + 1
+    xideals, xdevs, rels = res[k:k + n_e], dict(zip(ext_dev, res[k + n_e:k + 2 * n_e])), res[k + 2 * n_e:]
+    for (name, c), r in zip(ext_ideal.items(), xideals):
+        if r.violated:
+            raise vf.Infra("ideal Relay spec (%s) violates %s (specification error)" % (name, r.violated))
+        ideal_insts.append(dict(c, name=name))
+    ideals = ideals + xideals
+    for d, r in xdevs.items():
+        if not r.violated:
+            raise vf.Infra("deviation %s not detected by the invariants (vacuous model)" % d)
     for inst, r in zip(ideal_insts, ideals):
         if r.violated:
             raise vf.Infra("ideal Relay spec violates %s on %s (specification error)" % (r.violated, inst))
     caught = {"DevKeyedByStreamIdOnly@" + s: r.violated for s, r in sids.items()}
     caught["DevDataNoPeerCheck"] = nopeer.violated
+    caught.update({d: r.violated for d, r in xdevs.items()})
 
     # ---- 2. + 3. frame-level replay on real agents ------------------------------------------------------------------
     jobs = []
@@ -87,9 +128,20 @@ def run(ctx):
     chain_ops = R.tail_ops(2, [{"op": "burn", "a": "T", "p": "X"}, {"op": "open", "t": 1}, {"op": "send", "t": 1}, {"op": "open", "t": 2}])
     for kind in ("tcp", "forward", "udp"):
         scs.append(R.scenario("chain-%s" % kind, "chain", kind, chain_ops, idle_ms=0, no_leak=True))
+    # exit-originated close (UDP idle expiry at the exit) with two associations of one ingress and skewed ids; slow reader
+    B = {"op": "burn", "a": "T", "p": "X"}
+    o = lambda k, t, **kw: dict({"op": k, "t": t}, **kw)
+    scs.append(R.scenario("exit-expiry-udp", "chain", "udp", [B, o("open", 1), o("open", 2), o("send", 1), o("send", 2), o("xidle", 1),
+                                                              o("send", 2), o("close", 2)], idle_ms=400, no_leak=True))
+    stall = dict(n=80, ms=2600) if q else dict(n=200, ms=5000)
+    for kind in (("tcp",) if q else ("tcp", "forward")):
+        scs.append(R.scenario("slow-reader-%s" % kind, "chain", kind,
+                              [B, o("open", 1), o("open", 2), o("rsend", 1), o("stall", 1, **stall), o("rsend", 1), o("send", 2),
+                               o("rsend", 2), o("close", 1), o("close", 2)], idle_ms=0, no_leak=True))
     if not q:
         scs += sim_scenarios(ctx)
-    out, recs, icmp = R.run_all(ctx, jobs, scs)
+    out, recs, icmp = R.run_all(ctx, jobs, scs, extra=["Gate"])
+    gate = ctx.relay_extra["Gate"]
     reproduced = {}
     for name, (site, variant, path) in cex.items():
         o = out.pop(name)
@@ -107,6 +159,11 @@ def run(ctx):
 
     nfail = R.report_scenarios(ctx, recs, R.C16_KINDS)
     nfail += R.report_icmp(ctx, icmp, R.C16_KINDS)
+    for f in gate.get("fails") or []:
+        nfail += 1
+        ctx.finding("Relay:unexplained:%s:%s:two-step-relay" % (f["scenario"], f["what"]),
+                    "fork A,B-T-X,Y, distinct stream ids %s: the transit was stopped between looking the relay entry of tunnel 1 up and "
+                    "using it; tunnel 1 was closed from the exit side and a third peer opened tunnel 2: %s" % (f.get("sids"), f["detail"]), f)
 
     rel_paths = sum(o["paths"] for o in out.values())
     ctx.evidence("model_checking",
@@ -118,13 +175,15 @@ def run(ctx):
                               "icmp_exit_real=%s" % icmp.get("icmp_exit_real"),
                               "UDP / ICMP: one datagram outstanding at a time (delivery order is not part of the protocol)"],
                  states=sum(r.distinct for r in ideals), transitions=sum(r.generated for r in ideals),
-                 traces_validated_against_impl=rel_paths + len(cex) + len(recs) + 3,
+                 traces_validated_against_impl=rel_paths + len(cex) + len(recs) + 4 + (gate.get("gate_reached") or 0),
                  exhaustive=True,
                  ideal_instances=[dict(inst, states=r.distinct, transitions=r.generated) for inst, r in zip(ideal_insts, ideals)],
                  deviations_caught=caught, counterexamples_reproduced_on_code=reproduced,
                  relation_edges={n: o["edges"] for n, o in out.items()}, replayed_paths=rel_paths,
                  replayed_steps=sum(o["steps"] for o in out.values()), replay_mismatches=nmis,
-                 scenarios=len(recs), scenario_failures=nfail, icmp_scenarios=3, icmp_exit_real=icmp.get("icmp_exit_real"),
+                 scenarios=len(recs), scenario_failures=nfail, icmp_scenarios=4, icmp_exit_real=icmp.get("icmp_exit_real"),
+                 two_step_relay_rounds=gate.get("rounds"), two_step_relay_gate_reached=gate.get("gate_reached"),
+                 two_step_relay_gate_via=ctx.relay_extra.get("gate_via"), notes=[n.get("note") for n in ctx.relay_notes],
                  samples=[{"replay_path": next(iter(out.values()))["sample"]},
                           {"counterexample_ingress": [s["a"] for s in cex["cex_ingress_tcp"][2]["steps"]]},
                           {"scenario": scs[0]["ops"][:10]}])
